@@ -85,7 +85,7 @@ W.externs['dawgie.pl.schedule.view_doing'] = Extern(fn=_view_doing)
 
 
 def _waiter(which, cleared, sets):
-    @contract(W, 'dawgie/pl/state.py', 'FSM.wait_for_' + which, props=['C12'])
+    @contract(W, 'dawgie/pl/state.py', 'FSM.wait_for_' + which, props=['C12', 'C04'])
     class _K(ContractBase):
         params = {'self': FSM}
         modifies = ['Event.flag', 'FSM.%s_thread' % which, 'ghost.pollers_started']
@@ -107,7 +107,7 @@ def _waiter(which, cleared, sets):
             return out
     _K.__name__ = 'wait_for_' + which
 
-    @contract(W, 'dawgie/pl/state.py', 'FSM.wait_for_%s.<locals>.done' % which, props=['C12'])
+    @contract(W, 'dawgie/pl/state.py', 'FSM.wait_for_%s.<locals>.done' % which, props=['C12', 'C04'])
     class _D(ContractBase):
         params = {}
         vararg = []
